@@ -27,12 +27,13 @@ impl LintContext {
         } = lint.clone();
 
         let problem_tokens = document.token_indices_intersecting(lint.span);
-        let prequel_tokens = lint
-            .span
-            .with_len(2)
-            .pulled_by(2)
-            .map(|v| document.token_indices_intersecting(v))
-            .unwrap_or_default();
+        // The (up to) two characters right before the problematic text.
+        let prequel_tokens = match lint.span.start {
+            0 => Vec::new(),
+            start => {
+                document.token_indices_intersecting(Span::new(start.saturating_sub(2), start))
+            }
+        };
         // The two characters right after the problematic text.
         let sequel_tokens =
             document.token_indices_intersecting(Span::new_with_len(lint.span.end, 2));
